@@ -1443,8 +1443,8 @@ func c14KeyClass(e *c14Env, k string) string {
 				parts[i] = "*"
 			}
 		}
-		if len(parts) > 3 {
-			parts = parts[:3]
+		if len(parts) > 2 {
+			parts = parts[:2]
 		}
 		return "kv:" + strings.Join(parts, "/")
 	}
